@@ -35,7 +35,29 @@ fn explore(api: &Api, setting_ix: usize, seed: u64, cx: &mut Cx) {
             return;
         }
     };
-    let sk = sp.field(Kind::Setup, "server_sk").of(&setup).to_vec();
+    let skf = sp.field(Kind::Setup, "server_sk");
+    let sk = skf.of(&setup).to_vec();
+    // the external key is handle-style: what it serializes to is an opaque handle (a decoy key), not the key
+    let handle = match api.r_handle(&sk) {
+        Ok(h) => h,
+        Err(e) => {
+            cx.violate_case("machinery/key-store", format!("{:?}", e), json!({}));
+            return;
+        }
+    };
+    // the remote server's persisted setup = the direct one with the handle in place of the private key
+    let mut rsetup = setup.clone();
+    rsetup[skf.range()].copy_from_slice(&handle);
+    let with_handle = |v: Vec<Vec<u8>>| -> Vec<Vec<u8>> {
+        v.into_iter()
+            .map(|mut b| {
+                if b.len() == setup.len() {
+                    b[skf.range()].copy_from_slice(&handle);
+                }
+                b
+            })
+            .collect()
+    };
     cx.context_done();
     let label = format!("seed{}/c18/op/{}", seed, setting_ix);
     let ops = ["keypair", "new_with_key", "setup_recode", "sreg_start", "slogin_start(record)", "slogin_start(no record)"];
@@ -43,8 +65,8 @@ fn explore(api: &Api, setting_ix: usize, seed: u64, cx: &mut Cx) {
         // direct-key reference on the same tape
         let direct: Out = match op {
             "keypair" => api.ke_keypair_pk(&sk).map(|x| vec![x]),
-            "new_with_key" => api.setup_with_key(&mut Tape::new(&label), &sk).map(|x| vec![x]),
-            "setup_recode" => api.decode(Kind::Setup, &setup).map(|x| vec![x]),
+            "new_with_key" => api.setup_with_key(&mut Tape::new(&label), &sk).map(|x| with_handle(vec![x])),
+            "setup_recode" => api.decode(Kind::Setup, &setup).map(|x| with_handle(vec![x])),
             "sreg_start" => api.sreg_start(&Blob::n(&setup), &Blob::n(&reg.req), &p.cid).map(|x| vec![x]),
             "slogin_start(record)" => api.slogin_start(&mut Tape::new(&label), &Blob::n(&setup), Some(&Blob::n(&reg.file)), &Blob::n(&ke1), &p.cid, o(&p.ctx), o(&p.idu), o(&p.ids)).map(|(a, b)| vec![a, b]),
             _ => api.slogin_start(&mut Tape::new(&label), &Blob::n(&setup), None, &Blob::n(&ke1), &p.cid, o(&p.ctx), o(&p.idu), o(&p.ids)).map(|(a, b)| vec![a, b]),
@@ -60,19 +82,19 @@ fn explore(api: &Api, setting_ix: usize, seed: u64, cx: &mut Cx) {
                     (r.map(|x| vec![x]), l)
                 }
                 "setup_recode" => {
-                    let (r, l) = api.r_setup_recode(&setup, fail);
+                    let (r, l) = api.r_setup_recode(&rsetup, fail);
                     (r.map(|x| vec![x]), l)
                 }
                 "sreg_start" => {
-                    let (r, l) = api.r_sreg_start(&setup, &Blob::n(&reg.req), &p.cid, fail);
+                    let (r, l) = api.r_sreg_start(&rsetup, &Blob::n(&reg.req), &p.cid, fail);
                     (r.map(|x| vec![x]), l)
                 }
                 "slogin_start(record)" => {
-                    let (r, l) = api.r_slogin_start(&mut Tape::new(&label), &setup, Some(&Blob::n(&reg.file)), &Blob::n(&ke1), &p.cid, o(&p.ctx), o(&p.idu), o(&p.ids), fail);
+                    let (r, l) = api.r_slogin_start(&mut Tape::new(&label), &rsetup, Some(&Blob::n(&reg.file)), &Blob::n(&ke1), &p.cid, o(&p.ctx), o(&p.idu), o(&p.ids), fail);
                     (r.map(|(a, b)| vec![a, b]), l)
                 }
                 _ => {
-                    let (r, l) = api.r_slogin_start(&mut Tape::new(&label), &setup, None, &Blob::n(&ke1), &p.cid, o(&p.ctx), o(&p.idu), o(&p.ids), fail);
+                    let (r, l) = api.r_slogin_start(&mut Tape::new(&label), &rsetup, None, &Blob::n(&ke1), &p.cid, o(&p.ctx), o(&p.idu), o(&p.ids), fail);
                     (r.map(|(a, b)| vec![a, b]), l)
                 }
             }
